@@ -23,10 +23,22 @@ def build_value(v):
     raise TypeError(v)
 
 
+_DESC_CACHE = {}
+FRESH_DESCRIPTORS = [False]  # checks that want an independently rebuilt descriptor object per record set this
+
+
 def descriptor(name, fields):
+    """One descriptor object per (name, fields) and process, as applications hold them (identity-keyed fast paths see the same
+    object again); FRESH_DESCRIPTORS[0] = True builds a new object every time."""
     from flow.record import RecordDescriptor
 
-    return RecordDescriptor(name, [tuple(f) for f in fields])
+    key = (name, tuple(tuple(f) for f in fields))
+    if FRESH_DESCRIPTORS[0]:
+        return RecordDescriptor(name, [tuple(f) for f in fields])
+    d = _DESC_CACHE.get(key)
+    if d is None:
+        d = _DESC_CACHE[key] = RecordDescriptor(name, [tuple(f) for f in fields])
+    return d
 
 
 def build_record(rs):
